@@ -25,6 +25,7 @@ type Clause struct {
 type LoopContract struct {
 	Ordinal    int
 	Invariants []*Clause
+	Steps      []*Clause // "step": relation between the state at the loop head and at the end of the same iteration (prev(e) = e at the head)
 	Decreases  *Clause
 	Modifies   []string
 }
@@ -64,6 +65,7 @@ type FuncContract struct {
 	Opaque       bool
 	FreshResult  bool
 	FrameOnly    bool
+	ClaimOnly    bool // only property-tagged clauses and must-use obligations of this unit are claimed
 	used         bool
 }
 
@@ -109,7 +111,7 @@ type Contracts struct {
 }
 
 var clauseKeywords = map[string]bool{
-	"func": true, "lemma": true, "spec": true, "returns": true, "requires": true, "ensures": true, "exit": true, "unclaimed": true, "guarded": true, "census": true, "guardedfields": true,
+	"func": true, "lemma": true, "spec": true, "returns": true, "requires": true, "ensures": true, "exit": true, "unclaimed": true, "guarded": true, "census": true, "guardedfields": true, "step": true,
 	"invariant": true, "decreases": true, "modifies": true, "pure": true, "loop": true, "callback": true,
 	"panics": true, "forkjoin": true, "trusted": true, "nopanic": true, "axiom": true, "props": true,
 	"package": true, "ghost": true, "using": true, "opaque": true, "footprint": true,
@@ -239,6 +241,8 @@ func (cs *Contracts) loadFile(path, pkg string) error {
 			curF = &FuncContract{Pkg: pkg, Key: key, File: rc.file, Line: rc.line, Loops: map[int]*LoopContract{}}
 			for _, extra := range f[1:] {
 				switch extra {
+				case "claimonly":
+					curF.ClaimOnly = true
 				case "pure":
 					curF.Pure = true
 				case "trusted":
@@ -454,18 +458,20 @@ func (cs *Contracts) loadFile(path, pkg string) error {
 			}
 			curLoop = &LoopContract{Ordinal: n}
 			curF.Loops[n] = curLoop
-		case "requires", "ensures", "exit", "invariant", "decreases", "panics", "nopanic":
+		case "requires", "ensures", "exit", "invariant", "step", "decreases", "panics", "nopanic":
 			c, err := mkClause(rc)
 			if err != nil {
 				return err
 			}
 			switch {
-			case rc.kw == "invariant" || rc.kw == "decreases":
+			case rc.kw == "invariant" || rc.kw == "decreases" || rc.kw == "step":
 				if curLoop == nil {
 					return fail("%s outside loop", rc.kw)
 				}
 				if rc.kw == "invariant" {
 					curLoop.Invariants = append(curLoop.Invariants, c)
+				} else if rc.kw == "step" {
+					curLoop.Steps = append(curLoop.Steps, c)
 				} else {
 					curLoop.Decreases = c
 				}
